@@ -31,6 +31,29 @@ func oneField(r *Report, rule string, fn *ssa.Function, fc *FuncCtx, pkg, typ, f
 	return sts[0]
 }
 
+// fieldPerBuilder: the stores to a field of a literal of the given type in fn or in the helpers that build it; more than
+// one is accepted when each sits in a different function (one constructor per variant, each with its own literal).
+func fieldPerBuilder(r *Report, rule string, fn *ssa.Function, fc *FuncCtx, pkg, typ, field string) []*ssa.Store {
+	lf := litFields(fn, pkg, typ)
+	sts := lf[field]
+	if len(sts) == 0 {
+		sts = helperLitFields(fc.A.P, fn, pkg, typ, field)
+	}
+	homes := map[*ssa.Function]bool{}
+	distinct := true
+	for _, st := range sts {
+		if homes[st.Parent()] {
+			distinct = false
+		}
+		homes[st.Parent()] = true
+	}
+	if len(sts) == 0 || !distinct {
+		r.Bad(rule, fmt.Sprintf("%s: %s.%s", fc.A.P.FnName(fn), typ, field), fc.A.P.Pos(fn.Pos()), fmt.Sprintf("%d assignments to the field in this function (expected exactly one)", len(sts)))
+		return nil
+	}
+	return sts
+}
+
 func expectAP(r *Report, rule string, fn *ssa.Function, fc *FuncCtx, pkg, typ, field, wantSuffix, why string) {
 	st := oneField(r, rule, fn, fc, pkg, typ, field)
 	if st == nil {
@@ -304,6 +327,8 @@ func checkC06Fields(r *Report, p *Prog, rule string) {
 										if _, ok := v.X.(*ssa.Alloc); !ok {
 											okV = false
 										}
+									case *ssa.MakeSlice:
+										// a slice made here and filled by index
 									case *ssa.Call:
 										// accumulated group values: built by append from literals of the maker
 										for _, lf := range rootLeaves(v, map[ssa.Value]bool{}) {
